@@ -245,6 +245,19 @@ func (m *member) HandleMessage(from gen.PID, message any) error {
 		}
 	case busyMsg:
 		<-x.gate
+	case busyDieMsg:
+		close(x.in)
+		<-x.gate
+		switch x.how {
+		case rNormal:
+			return gen.TerminateReasonNormal
+		case rShutdown:
+			return gen.TerminateReasonShutdown
+		case rPanic:
+			panic("member asked to panic")
+		default:
+			return errBoom
+		}
 	}
 	return nil
 }
